@@ -101,7 +101,8 @@ def reject_line(draw):
     if c.startswith("titan"):
         u = draw(urlgen.gemini_url(scheme="titan", titan=True))
         if c == "titan-nosize":
-            line = u["url"] + ";mime=text/plain"
+            line = u["url"] + draw(st.sampled_from([";mime=text/plain", ";x-size=5", ";content-size=5;mime=text/plain", ";max.size=5", ";!size=0",
+                                                    ";Size=5", ";size", ";siz=5;e=5", ";token=size=5", ";mime=size=5"]))
         elif c == "titan-badsize":
             line = u["url"] + ";size=" + draw(st.sampled_from(["abc", "", "1.5", "0x10", "1e3", "--1", "5;size=x"]))
             if line.endswith("5;size=x"):
@@ -448,14 +449,23 @@ def enum_lengths(tier):
                         case = {"kind": "titan", "line": base + fill + suffix, "crlf": crlf, "content": "abc",
                                 "uploads": uploads, "size": 3, "mime": "text/gemini", "token": None,
                                 "host": "example.org", "port": 1965, "path": "/" + fill, "query": "", "labels": [f"len:{n}", "titan"]}
-                    if n <= 1024 and crlf:
-                        case["cls"] = "accept"
-                    elif n > 1024 and (crlf or n - 2 > 1024):
-                        case["cls"] = "reject"
-                        case["corruption"] = "too-long-crlf" if crlf else "too-long-nocrlf"
-                    else:
-                        continue  # short line without CRLF: incomplete, C15's business
-                    yield case
+                    cases = [case]
+                    if kind == "gemini":
+                        # the same total length with an empty path and the padding in the query (the normalised form is one
+                        # byte longer than the line)
+                        base = "gemini://example.org"
+                        q = "q" * (n - 2 - len(base) - 1)
+                        cases.append({"kind": "gemini", "line": base + "?" + q, "crlf": crlf, "content": "", "uploads": uploads,
+                                      "host": "example.org", "port": 1965, "path": "/", "query": q, "labels": [f"len:{n}", "path:empty"]})
+                    for case in cases:
+                        if n <= 1024 and crlf:
+                            case["cls"] = "accept"
+                        elif n > 1024 and (crlf or n - 2 > 1024):
+                            case["cls"] = "reject"
+                            case["corruption"] = "too-long-crlf" if crlf else "too-long-nocrlf"
+                        else:
+                            continue  # short line without CRLF: incomplete, C15's business
+                        yield case
 
 
 LANES = [
